@@ -80,15 +80,21 @@ def case_strategy(draw, ctx, kinds=("energy", "detector")):
     return case
 
 
-def _gap_threshold(values, rank):
-    """A threshold strictly inside a gap of the positive sample values, >= 2 % from both neighbours."""
+def _gap_threshold(values, rank, first=None):
+    """A threshold strictly inside a gap of the positive sample values, >= 2 % from both neighbours. Three times out
+    of four the gap is taken below the first sample the condition will look at (`first`), so that the run does not
+    stop at min_steps straight away but somewhere inside the window (or at its cap)."""
     v = np.sort(np.unique(np.asarray([x for x in values if np.isfinite(x) and x > 0], dtype=np.float64)))
     if v.size == 0:
         return None
     gaps = [(v[i], v[i + 1]) for i in range(v.size - 1) if v[i + 1] / v[i] > 1.1]
     gaps.append((v[-1], v[-1] * 4.0))
     gaps.insert(0, (v[0] / 4.0, v[0]))
-    a, b = gaps[min(int(rank * len(gaps)), len(gaps) - 1)]
+    low = [g for g in gaps if first is not None and first > 0 and g[1] <= first * (1 + 1e-9)]
+    if low and rank < 0.75:
+        a, b = low[min(int(rank / 0.75 * len(low)), len(low) - 1)]
+    else:
+        a, b = gaps[min(int(rank * len(gaps)), len(gaps) - 1)]
     return float(np.sqrt(a * b))
 
 
@@ -144,7 +150,8 @@ def body(ctx, case):
         max_arg, max_steps = pick(case["max_mode"], case["max_frac"], max(min_steps, 1), T, T)
         if max_steps < min_steps:
             max_arg = max_steps = min_steps
-        thr = _gap_threshold(energy[min_steps:min(max_steps, T) + 1] or energy, case["thr_rank"])
+        thr = _gap_threshold(energy[min_steps:min(max_steps, T) + 1] or energy, case["thr_rank"],
+                             first=energy[min(min_steps, T)])
         if thr is None:
             raise Skip()
         pred = None
@@ -175,7 +182,7 @@ def body(ctx, case):
             ref = r[t - need:t - spp].reshape(p, spp).mean(axis=0)
             last = r[t - spp:t]
             dist[t] = float(np.linalg.norm(np.abs(np.fft.rfft(ref, n=spp)) - np.abs(np.fft.rfft(last, n=spp))))
-        thr = _gap_threshold(list(dist.values()), case["thr_rank"])
+        thr = _gap_threshold(list(dist.values()), case["thr_rank"], first=dist.get(min_steps))
         if thr is None or thr < 1e-12 * max(float(np.abs(readings).max()), 1e-30) or thr < 1e-15:
             raise Skip()
         pred = None
